@@ -163,6 +163,7 @@ fn run_reassembly(r: &Reassembly) -> CaseResult {
         links: [LinkCfg { latency_us: 1000, fates: vec![] }, LinkCfg { latency_us: 1000, fates: vec![] }],
         ticks: vec![Tick { dt_us: 10_000, acts: [EpAct { step: true, sends, flushes: 1 }, EpAct { step: true, sends: vec![], flushes: 0 }] }],
         tail: None,
+        premature_acks: Vec::new(),
     };
     let mut fsim = SimPair::new(&frag_sc);
     fsim.run_tick(&frag_sc.ticks[0]);
